@@ -3,7 +3,7 @@ Theorems: props/C06.v (exception conversion wrappers, ownership, fault-safety of
 resize family under every fault index / short-read budget).
 Direct oracle: a fault at EVERY file-object call index and a short read at every byte budget (strided)
 for load / growing save / shrinking save / delete of every kind and sample."""
-import io, copy, os
+import errno, io, copy, os
 import mutagen
 from common import zs, hx, unhx
 from fam import kinds as KM, shared
@@ -72,7 +72,10 @@ def attempts(ctx, kind, sample, tag, mk_op, data, dense, stride_n, max_idx=None)
         step = len(idxs) / float(max_idx)
         idxs = sorted(set([idxs[int(i * step)] for i in range(max_idx)] + idxs[:40] + idxs[-10:]))
     for k, sticky in [(k, s) for k in idxs for s in (True, False)]:
-        t = Faulty(io.BytesIO(data), fail_at=k, sticky=sticky)
+        # the error the device reports: EIO for the persistent fault; for the single fault in turn ENOSPC (disk full), an
+        # error without errno, EACCES, EIO -- the conversion must not depend on which
+        err = errno.EIO if sticky else (errno.ENOSPC, None, errno.EACCES, errno.EIO)[k % 4]
+        t = Faulty(io.BytesIO(data), fail_at=k, sticky=sticky, err=err)
         r = classify(mk_op(t))
         ctx.oracle_cases += 1
         ctx.count("fault:" + tag)
@@ -98,6 +101,7 @@ def attempts(ctx, kind, sample, tag, mk_op, data, dense, stride_n, max_idx=None)
 
 
 _expect = {}
+_D3_DONE = {}
 
 
 def verify_complete(ctx, kind, tag, out, d):
@@ -116,6 +120,8 @@ def verify_complete(ctx, kind, tag, out, d):
         got = []
     if got != exp:
         ctx.violation("oracle", "C06 %s %s: returned normally under a fault but the file does not hold the saved state" % (kind.name, tag), d)
+    elif tag == "save-deleteid3" and (out[:4] != b"fLaC" or out[-128:-125] == b"TAG"):
+        ctx.violation("oracle", "C06 %s %s: returned normally under a fault but an ID3 tag the save was asked to remove is still in the file" % (kind.name, tag), d)
 
 
 def canon_after(kind, data, fn):
@@ -210,6 +216,22 @@ def format_oracle(ctx, dense, stride_n, max_idx, kinds=None, max_size=120000):
                         exp4 = None
                     _expect[(kname, sample, "module-delete")] = exp4
                     attempts(ctx, kind, sample, "module-delete", lambda t: (lambda: fn(t)), grown, dense, stride_n, max_idx)
+                except mutagen.MutagenError:
+                    pass
+            # FLAC only: save(deleteid3=True) on a stream wrapped in an ID3v2 and an ID3v1 tag -- a normal return means both are gone
+            if kname == "FLAC" and data[:4] == b"fLaC" and not _D3_DONE.get(kinds is None):
+                _D3_DONE[kinds is None] = True
+                from fam import synth
+                wrapped = synth.simple_id3() + data + synth.id3v1()
+
+                def mk_d3():
+                    o5 = kind.open(io.BytesIO(wrapped))
+                    add_value(kind, o5, 300)
+                    return o5
+                try:
+                    exp5, _ = canon_after(kind, wrapped, lambda b: mk_d3().save(b, deleteid3=True))
+                    _expect[(kname, sample, "save-deleteid3")] = exp5
+                    attempts(ctx, kind, sample, "save-deleteid3", lambda t: (lambda o=mk_d3(): o.save(t, deleteid3=True)), wrapped, dense, stride_n, max_idx)
                 except mutagen.MutagenError:
                     pass
 
